@@ -24,9 +24,12 @@ MANIFEST = dict(
     text="proof (partial). Machine-checked (Coq): for every binary operator of the arithmetic core applied to operands "
          "with closed dimension types, acceptance by the checker's rule implies that the run-time rule on the "
          "dimensions of the operand units does not fail with IncompatibleUnits and yields exactly the static type, "
-         "under ExpAgree (run-time exponent = statically evaluated exponent) (C01_binop_agree_partial, closed under the "
-         "global context); the static types come from the solver proved sound in C02_solver_sound. NOT proved: the "
-         "lifting to whole programs, generic calls, structs, lists (C01_sound_full : Prop). That part is decided on "
+         "under ExpAgree (run-time exponent = statically evaluated exponent) (C01_binop_agree_partial), and its lifting "
+         "by induction to whole expression trees of the arithmetic fragment over a closed monomorphic environment "
+         "(C01_expr_agree_partial: accepted => type is a variable-free dimension d and run-time unit dimension is "
+         "exactly d, never IncompatibleUnits); both closed under the global context; the static types come from the "
+         "solver proved sound in C02_solver_sound. NOT proved: let-programs, generic calls, conditionals, structs, "
+         "lists (C01_sound_full : Prop). That part is decided on "
          "every run by an oracle on the real implementation: generated accepted programs (arithmetic with prefixes, "
          "integer/fractional/composite constant exponents, derived units and dimensions, generic and inferred "
          "functions, where-clauses, conditionals, lists) are executed, no IncompatibleUnits-type run-time error may "
@@ -38,7 +41,7 @@ MANIFEST = dict(
     technique="Coq proof (per-operator static/run-time agreement) + model correspondence + run-time oracle through hooks",
 )
 
-THEOREMS = ["C01_binop_agree_partial"]
+THEOREMS = ["C01_binop_agree_partial", "C01_expr_agree_partial"]
 IMPORTS = ["Dim.Model", "Dim.Infer", "Dim.Exec", "Gen.PreludeDims"]
 
 # run-time error kinds that mean "went wrong dimensionally"
@@ -130,18 +133,111 @@ def check_case(stmts_src, tcs, extras, names):
     if tc == "ok|?":
         return None  # other run-time error (division by zero, assertion, ...): documented, allowed
     raws = parse_raw(extra)
-    for st in tc[3:].split("#"):
+    last = {}
+    for st in tc[3:].split("#"):        # a re-bound name: the latest binding is the one in force
         p = st.split("|")
-        if p[0] != "let" or p[1] not in raws:
+        if p[0] == "let":
+            last[p[1]] = p[2]
+    for name, scheme in last.items():
+        if name not in raws:
             continue
-        sd = static_dim(p[2])
+        sd = static_dim(scheme)
         if sd is None:
             continue
-        for rd in raw_dims(raws[p[1]]):
+        for rd in raw_dims(raws[name]):
             if rd != "?" and rd != sd:
                 return dict(kind="run-time unit of a global does not have the inferred dimension",
-                            name=p[1], inferred=sd, runtime_unit=raws[p[1]])
+                            name=name, inferred=sd, runtime_unit=raws[name])
     return None
+
+
+QUANTS = [("m", {"L": 1}), ("s", {"T": 1}), ("kg", {"M": 1}), ("J", {"E": 1}), ("N", {"F": 1}), ("km", {"L": 1}),
+          ("ms", {"T": 1}), ("A", {"I": 1}), ("K", {"K": 1}), ("Hz", {"T": -1})]
+
+
+def quant(rng, avoid=None, same=None):
+    """a simple quantity expression; `avoid`: not of that dimension; `same`: of that dimension"""
+    for _ in range(50):
+        u, d = rng.choice(QUANTS)
+        if avoid is not None and d == avoid:
+            continue
+        if same is not None and d != same:
+            continue
+        e = bn("*", ("num", rng.choice(["2", "3", "1.5", "4"])), ("unit", u))
+        if rng.random() < 0.3:
+            u2, d2 = rng.choice(QUANTS)
+            if d2 != d:
+                e = bn(rng.choice(["*", "/"]), e, ("unit", u2))
+                d = None
+        return e, d
+    return bn("*", ("num", "2"), ("unit", "m")), {"L": 1}
+
+
+def gen_rebind(rng, k):
+    """globals and functions re-bound with the same or another dimension before / after the
+    functions that read them; parameters and where-locals shadowing globals; every function result
+    is bound to a global so that its run-time unit is compared with its inferred type"""
+    g = "vg%d" % k
+    idg = ("id", g)
+    A, dA = quant(rng)
+    B, dB = quant(rng, same=dA) if rng.random() < 0.25 and dA else quant(rng, avoid=dA)
+    st = [("let", g, None, A)]
+    n = [0]
+
+    def bind(e):
+        n[0] += 1
+        st.append(("let", "vr%d_%d" % (k, n[0]), None, e))
+
+    def reader(name):
+        kind = rng.choice(["nullary", "param", "where", "where2", "cond"])
+        if kind == "nullary":
+            return ("fn", name, [], [], None, [], bn("*", ("num", "2"), idg)), []
+        if kind == "param":
+            return ("fn", name, [], [("pa0", None)], None, [], bn(rng.choice(["*", "/"]), ("id", "pa0"), idg)), [quant(rng)[0]]
+        if kind == "where":
+            return ("fn", name, [], [("pa0", None)], None, [("wl0", None, bn("^", idg, ("num", "2")))],
+                    bn("*", ("id", "wl0"), ("id", "pa0"))), [quant(rng)[0]]
+        if kind == "where2":
+            return ("fn", name, [], [], None, [("wl0", None, idg), ("wl1", None, bn("+", ("id", "wl0"), idg))],
+                    ("id", "wl1")), []
+        return ("fn", name, [], [("pa0", None)], None, [],
+                ("if", bn(">", ("id", "pa0"), idg), ("id", "pa0"), idg)), [bn("*", ("num", "5"), idg)]
+
+    # a reader defined BEFORE the re-binding keeps seeing the first binding
+    before = None
+    if rng.random() < 0.6:
+        before, bargs = reader("fb%d" % k)
+        st.append(before)
+        bind(("call", before[1], bargs))
+    if rng.random() < 0.3:
+        bind(idg)
+    st.append(("let", g, None, B))            # re-bound at top level
+    if rng.random() < 0.3:
+        st.append(("let", g, None, quant(rng)[0]))   # and once more
+    after, aargs = reader("fa%d" % k)          # a reader defined AFTER it must see the latest one
+    st.append(after)
+    bind(("call", after[1], aargs))
+    bind(bn("*", idg, ("num", "2")))
+    if before is not None:
+        bind(("call", before[1], bargs))
+    r = rng.random()
+    if r < 0.35:      # parameter shadowing the global
+        st.append(("fn", "fs%d" % k, [], [(g, None)], None, [], bn("*", idg, ("num", "2"))))
+        bind(("call", "fs%d" % k, [quant(rng)[0]]))
+        bind(("call", after[1], aargs))
+    elif r < 0.6:     # where-local shadowing the global
+        st.append(("fn", "fw%d" % k, [], [("pa0", None)], None, [(g, None, bn("^", ("id", "pa0"), ("num", "2")))],
+                   bn("*", idg, ("id", "pa0"))))
+        bind(("call", "fw%d" % k, [quant(rng)[0]]))
+    elif r < 0.85:    # function re-defined with another body / dimension; old and new callers
+        fr = "fr%d" % k
+        st.append(("fn", fr, [], [("pa0", None)], None, [], bn("*", ("id", "pa0"), A)))
+        st.append(("fn", "fc%d" % k, [], [], None, [], ("call", fr, [("num", "2")])))
+        bind(("call", fr, [("num", "3")]))
+        st.append(("fn", fr, [], [("pa0", None)], None, [], bn("*", ("id", "pa0"), B)))
+        bind(("call", fr, [("num", "3")]))
+        bind(("call", "fc%d" % k, []))
+    return st
 
 
 def gen_exponent_stream(rng, n):
@@ -179,12 +275,19 @@ def run(chk):
     corpus_path = os.path.join(common.VERIF, "corpus", "c01.json")
     for c in json.load(open(corpus_path)) if os.path.exists(corpus_path) else []:
         cases.append((None, c["source"], "corpus"))
-    nprog = 500 if quick else 8000
+    nprog = 400 if quick else 8000
     for k in range(nprog):
         p = D.gen_program(chk.rng, start=k * 20)
         cases.append((p["stmts"], "\n".join(D.src_stmt(s) for s in p["stmts"]), "generated"))
     for sts in gen_exponent_stream(chk.rng, 60 if quick else 600):
         cases.append((sts, "\n".join(D.src_stmt(s) for s in sts), "exponent"))
+    for k in range(25 if quick else 300):      # structs (outside the model: implementation only)
+        for t in D.struct_templates(chk.rng, k):
+            if t["expect"] == "accept":
+                cases.append((None, t["source"], "struct"))
+    for k in range(160 if quick else 2500):
+        sts = gen_rebind(chk.rng, k)
+        cases.append((sts, "\n".join(D.src_stmt(s) for s in sts), "rebind"))
 
     lines = []
     for sts, src, _ in cases:
@@ -287,7 +390,10 @@ def run(chk):
         "rule": "corpus (the two confirmed findings) + seeded well-dimensioned multi-statement programs from the C02 "
                 "generator (units with prefixes, constant integer/fractional/composite exponents, derived units and "
                 "dimensions, generic/inferred functions, where-clauses, conditionals, lists) + a stream of powers with "
-                "composite decimal exponents; every accepted program is executed; distinct = distinct vectors of inferred "
+                "composite decimal exponents + a family of re-bindings (globals and functions re-bound with the same or "
+                "another dimension before/after nullary, parametrised, where-clause and conditional functions that read "
+                "them; parameters and where-locals shadowing globals; every function result bound to a global); every "
+                "accepted program is executed; distinct = distinct vectors of inferred "
                 "statement types; non-trivial = accepted and defines at least one global whose raw unit is compared",
         "globals_compared": globals_checked,
         "outcomes": dict(stats),
